@@ -58,6 +58,27 @@ CHECKS = {
          "Session pairs mid-transfer; closers for client, accepted session and listener (several orders) lurk and may be released at any scheduling point or at chosen virtual instants; afterwards every library goroutine must have exited, "
          "no timer may stay armed, and the pool sanitizer (double recycle, foreign buffer, write-after-recycle by poison; quarantine and eager-reuse modes) must stay silent.",
          "DESIGN.md 5 C15"),
+ "C05": ("exploration", "structure-aware bounded-exhaustive input enumeration at every position of real histories, plus explicit-state BFS with an adversarial peer",
+         "Truncations, extensions, constant strings and every single boundary-value header-field edit (thorough: pairs) of every genuine datagram, re-sealed with a valid CRC/tag, fed to the real packetInput at the datagram's history position "
+         "(client, listener with/without session, foreign address); forged FEC groups and short typed bodies; raw KCP.Input header-alphabet product incl. >1500-byte payloads; fecDecoder.decode alphabets; adversarial BFS (depth 3/4) on the core. "
+         "Oracle: no panic, buffering limits of C04, bounded ack list / shard sets / pool occupancy.",
+         "DESIGN.md 5 C05"),
+ "C06": ("fault_enumeration", "exhaustive corruption battery per datagram and history position with an independent integrity oracle and a reflective deep-state hash",
+         "For every datagram of a real client/listener history under each of 14 ciphers x FEC off/on: every bit flip, every burst (L in a set / 2..32) at every offset in two patterns, every substitution of a stored CRC/tag byte, every truncation, "
+         "short and constant datagrams; the independent decoder decides which fail the check; for those a reflective deep hash of client, listener, sessions, FEC codecs, counters (except InCsumErrors) and pool occupancy must be unchanged.",
+         "DESIGN.md 5 C06"),
+ "C07": ("fault_enumeration", "exhaustive enumeration of arrival sequences over real encoder output into the real decoder",
+         "For each (d,p), group position (incl. 2^31, wrap value; tracked and fresh decoder) and payload-size vector: every arrival sequence of length <= n+1 over the group's n packets plus two of the next group; "
+         "when the d-th distinct packet arrives every missing data packet must have been reconstructed byte-exactly with zero padding, and everything emitted must be an original of its group.",
+         "DESIGN.md 5 C07"),
+ "C14": ("exploration", "ThreadSanitizer happens-before race check on every explored schedule of the real code under the controlled scheduler (HB-race mode)",
+         "All 26 UDPSession and 9 Listener methods, each called twice on its own thread on dialled and accepted session against live traffic and a second client, cipher {none, CFB, AEAD} x FEC {off,on} x Close variants; "
+         "the scheduler's hand-offs are hidden from TSan and the shims announce the program's own HB edges, so a race between any two calls is reported on any schedule where both accesses occur; default schedule + single deviations.",
+         "DESIGN.md 5 C14"),
+ "C16": ("fault_enumeration", "exhaustive enumeration of sender/receiver ratio pairs x starting residues; fate vectors for stability",
+         "Every (d,p) x (d',p') with d,d'<=4, p,p'<=3 and boundary pairs up to d+p=255, from every starting residue and three bases: the real decoder fed the real encoder's uninterrupted output must adopt the ratio within 258+2(d+p) packets "
+         "and then recover a single loss; with equal ratios every fate vector {deliver, drop, duplicate, swap} over the first K genuine packets must never set the tuning flag or change the ratio.",
+         "DESIGN.md 5 C16"),
 }
 NOT_YET = {}
 
